@@ -14,6 +14,7 @@ pub mod chmux_misc;
 pub mod chmux_peer;
 pub mod robs;
 pub mod rwlock;
+pub mod typed;
 
 pub type MuxResult = Result<(), ChMuxError<io::Error, io::Error>>;
 
